@@ -16,7 +16,7 @@ ASSUMPTIONS = ['a nested node nobody ever waits on is required to trigger only w
                'operand history (step and outcome of each operand) is taken from the observed run']
 PROBES = ['operand_between_trigger_and_processing', 'nested_inner_decided_at_construction', 'failure_after_satisfaction',
           'failure_before_satisfaction', 'empty_operands', 'duplicate_leaf', 'foreign_refused', 'depth3',
-          'late_failure_escapes', 'nested_node_waited_on', 'nested_node_awaited_after_detachment']
+          'late_failure_escapes', 'nested_node_waited_on', 'nested_node_awaited_after_detachment', 'condition_over_hundreds_of_operands']
 
 
 def _late_waiter_only(case, vs):
@@ -54,7 +54,17 @@ def gen(rng, tier):
     if rng.random() < 0.4:
         # nested conditions are events of their own: someone waits on an inner node as well as (or after) the root
         w['subwait'] = rng.choice([1, 2, 3])
-    return gen_program(rng, prof)
+    case = gen_program(rng, prof)
+    if rng.random() < 1 / 250:
+        # a barrier over several hundred operands (and the same barrier nested under a guard)
+        n = rng.randint(258, 420)
+        pool = [0, 0.25, 0.5, 1, 1, 2, 3]
+        tree = {'t': 'all', 'kids': [{'leaf': 'timeout', 'd': rng.choice(pool), 'v': 5000 + j} for j in range(n)]}
+        if rng.random() < 0.5:
+            tree = {'t': 'any', 'kids': [tree, {'leaf': 'timeout', 'd': 50, 'v': 4999}]}
+        case['setup'].append({'k': 'proc', 'id': 'pb', 'ops': [{'op': 'cond', 'tree': tree, 'h': 'cont'}]})
+        case['big_barrier'] = True
+    return case
 
 
 def _has_foreign(tree):
@@ -367,6 +377,8 @@ def run(case):
         cur = ('CV', tuple((env.label(e), san(x)) for e, x in v.items()))
         cvs_final.append((pid, i, lb, cur, logged))
     viol, stats, nontrivial, ch = check(env.log, case, cvs_final)
+    if case.get('big_barrier'):
+        stats['condition_over_hundreds_of_operands'] = 1
     final = {}
     for pid, p in w.procs.items():
         alive = p.is_alive
